@@ -136,6 +136,7 @@ func Run(ctx *vrun.Ctx) error {
 		ctx.Workers = 8
 	}
 	ctx.Ev.Coverage.Rule = "every edge of the TLC state graphs hs-graph and stream-graph (rekey interval 3) replayed on real<->real, real<->reference and reference<->real endpoint pairs; simulated behaviours of the two-fault models and of the rekey-interval-224 model replayed likewise; all invariants of V2Transport.tla checked exhaustively by TLC on the listed configurations"
+	ctx.Ev.Coverage.Explanation = "not exhaustive over the property's quantifier: garbage lengths are the classes {0,1,15,16,4094,4095}, keys are random per session, fault offsets inside a unit are seeded; TLC explores the listed finite configurations completely (rekey interval 3), the thorough tier replays every edge of the dumped graphs, the quick tier a scenario-stratified sample"
 	ctx.Assume("symbolic cryptography: ChaCha20, Poly1305, HKDF and ECDH are ideal (a ciphertext opens only under the same key, nonce and associated data); collisions of random garbage/ciphertext bytes with the 16-byte terminator are ignored")
 	ctx.Assume("ElligatorSwift field arithmetic (XSwiftEC and its inverse) is not specified in TLA+; it is exercised only: encode->decode equality in every reference handshake, both sides reach equal secrets, BIP324 decode/ECDH vectors")
 	ctx.Assume("channel faults act on whole protocol units in flight (byte flips at seeded offsets inside a unit, truncation inside a unit, drop/duplicate/swap of units); key units are only flipped or truncated")
